@@ -15,6 +15,8 @@ PROP = dict(
                        "Comdex.C05.found_price_in_spread", "Comdex.C05.found_price_iff_crossing",
                        "Comdex.C05.found_price_amounts_positive", "Comdex.C05.found_price_unmatchable_counterexample",
                        "Comdex.C05.limit_respected_first_batch", "Comdex.C05.price_uniform_first_batch",
+                       "Comdex.C05.base_conserved_iff_lossless", "Comdex.C05.base_conserved_iff_lossless_single",
+                       "Comdex.C05.distribution_exact_iff_lossless",
                        "Comdex.C05.pool_buy_amount_on_curve", "Comdex.C05.pool_sell_amount_on_curve",
                        "Comdex.C05.pool_buy_orders_within_reserves_and_curve",
                        "Comdex.C05.pool_sell_orders_within_reserves_and_curve", "Comdex.C05.pool_offers_within_reserves",
